@@ -40,7 +40,7 @@ ASSUMPTIONS = [
     "whose receptions have not all come out 45 s after later traffic closed its window is a loss only when a second attempt reproduces it",
 ]
 
-MANDATORY = ["system:receptions-with-a-receiver-clock", "system:records", "system:groups-merged-from-several-receivers", "cli:history:monotone", "cli:history:non-monotone", "shape:reopened-frame", "shape:equal-stamps", "shape:decreasing-stamps", "shape:W=0",
+MANDATORY = ["system:receptions-with-a-receiver-clock", "system:records", "system:groups-merged-from-several-receivers", "cli:history:monotone", "cli:format:legacy(rssi per line)", "cli:format:metadata", "cli:history:non-monotone", "shape:reopened-frame", "shape:equal-stamps", "shape:decreasing-stamps", "shape:W=0",
              "shape:undecodable-group-dropped", "shape:group>=3", "shape:joined-at-expiry", "shape:several-closed-at-once"]
 
 
@@ -386,13 +386,24 @@ def cli_expected(window, ins, decodable):
     return batches, monotone
 
 
-def run_cli(rep, cli, window, ins, decodable, tmpdir):
+CLI_RUNS = [0]
+
+
+def run_cli(rep, cli, window, ins, decodable, tmpdir, legacy=None):
     import json
     import os
     import subprocess
     path = os.path.join(tmpdir, f"c10cli.{os.getpid()}.jsonl")
+    # every second history is written in the older file format the tool still reads: one reception per line, its signal
+    # level in a top-level "rssi" field and no metadata (the level doubles as the reception's unique id here)
+    CLI_RUNS[0] += 1
+    if legacy is None:
+        legacy = CLI_RUNS[0] % 2 == 0
     with open(path, "w") as f:
-        for frame, ts, rid in ins:
+        for k, (frame, ts, rid) in enumerate(ins):
+            if legacy:
+                f.write(json.dumps({"timestamp": ts, "frame": frame, "rssi": -float(k + 1)}) + "\n")
+                continue
             meta = {"system_timestamp": ts, "serial": rid % 8, "nanoseconds": rid}
             if rid % 8 == 1:
                 meta["gnss_timestamp"] = ts + 1.0
@@ -410,7 +421,8 @@ def run_cli(rep, cli, window, ins, decodable, tmpdir):
         except OSError:
             pass
     rep.evaluations += 1
-    replay = {"mode": "decode1090", "window": window, "ins": [list(x) for x in ins]}
+    replay = {"mode": "decode1090", "window": window, "ins": [list(x) for x in ins], "legacy": legacy}
+    rep.cls("cli:format:" + ("legacy(rssi per line)" if legacy else "metadata"))
     if p.returncode != 0:
         rep.violation("C10:cli:crash", f"decode1090 -d {window} exited with {p.returncode}: {p.stderr.decode(errors='replace')[-300:]}", replay)
         return
@@ -419,6 +431,14 @@ def run_cli(rep, cli, window, ins, decodable, tmpdir):
         if not line.strip():
             continue
         o = json.loads(line)
+        if legacy:
+            ids = []
+            for m in o.get("metadata", []):
+                x = m.get("rssi")
+                k = int(round(-x)) - 1 if isinstance(x, (int, float)) else -1
+                ids.append(ins[k][2] if 0 <= k < len(ins) else ("unknown-rssi", x))
+            got.append((o.get("frame"), o.get("timestamp"), tuple(ids)))
+            continue
         got.append((o.get("frame"), o.get("timestamp"), tuple(m.get("nanoseconds") for m in o.get("metadata", []))))
     batches, monotone = cli_expected(window, ins, decodable)
     rep.cls("cli:history:monotone" if monotone else "cli:history:non-monotone")
@@ -540,7 +560,7 @@ def replay(binary, data, rsmon=None):
     ins = [tuple(x) for x in r["ins"]]
     if r.get("mode") == "decode1090":
         import os
-        run_cli(rep, os.path.join(os.path.dirname(binary), "decode1090"), r["window"], ins, set(dec), "/tmp")
+        run_cli(rep, os.path.join(os.path.dirname(binary), "decode1090"), r["window"], ins, set(dec), "/tmp", legacy=bool(r.get("legacy")))
         return rep.to_dict()
     run_batch(rep, binary, [(r["window"], ins)], set(dec))
     return rep.to_dict()
